@@ -509,15 +509,50 @@ func (i *interpreter) chooseK(kind byte, n int) int {
 	if n <= 1 {
 		return 0
 	}
+	if !i.cfg.SymbolicChoices {
+		if d, ok := i.replay(kind); ok {
+			i.pushDecision(d)
+			return int(d.V)
+		}
+		for k := 1; k < n; k++ {
+			i.altSpec(Decision{kind, uint64(k)}, i.model)
+		}
+		i.pushDecision(Decision{kind, 0})
+		return 0
+	}
+	// The choice (harness alternative, fault/crash index, schedule, select
+	// case, map order) is a symbolic variable 0 <= s < n; the solver
+	// enumerates its feasible values.
+	c := i.ctx
+	s := c.NewSym(8, fmt.Sprintf("choice#%d", len(c.Syms)))
+	i.assertPC(c.Ult(s, c.Const(8, uint64(n))))
 	if d, ok := i.replay(kind); ok {
+		i.assertPC(c.Eq(s, c.Const(8, d.V)))
 		i.pushDecision(d)
 		return int(d.V)
 	}
-	for k := 1; k < n; k++ {
-		i.altSpec(Decision{kind, uint64(k)}, i.model)
+	v0 := i.evalModel(s)
+	if v0 >= uint64(n) {
+		v0 = 0
 	}
-	i.pushDecision(Decision{kind, 0})
-	return 0
+	excl := []*smt.Term{c.Not(c.Eq(s, c.Const(8, v0)))}
+	for {
+		res, m := i.sol.Check(c, excl...)
+		i.ps.transitions++
+		if res == smt.Unsat {
+			break
+		}
+		if res == smt.Unknown {
+			i.noteInconclusive("solver returned unknown while enumerating a choice")
+			break
+		}
+		vi := smt.NewEvaluator(m).Eval(s)
+		i.altSpec(Decision{kind, vi}, m)
+		excl = append(excl, c.Not(c.Eq(s, c.Const(8, vi))))
+	}
+	i.assertPC(c.Eq(s, c.Const(8, v0)))
+	i.pushDecision(Decision{kind, v0})
+	return int(v0)
 }
 
 // assume constrains the path; an infeasible assumption ends it silently.
